@@ -1,6 +1,797 @@
-//! C16 check (see /verif/DESIGN.md section 5 and /verif/mc/README-dev.md).
+//! C16 — principal text form is a checksummed bijection on 0..29-byte ids (E1 + E3).
+//! See /verif/DESIGN.md section 5 and /verif/mc/README-dev.md.
+//!
+//! Subject: ic_principal::Principal (constructors, text form, serde impls), candid's
+//! CandidType impl for it and the 29-byte limit of the wire parser (`PrincipalBytes`).
+//! Oracle: R7 (`refmodel::hash`: CRC32, base32, principal_text, principal_parse) plus a
+//! second, differently structured local classifier (`classify`) that must agree with R7 on
+//! acceptance (a disagreement between the two oracles is a machinery failure, exit 2).
+use candid::types::value::{IDLArgs, IDLValue};
+use candid::{Decode, Encode};
+use ic_principal::{Principal, PrincipalError};
 use mclib::engine::{catch, finish, install_quiet_panic_hook, Ctx, Report, Tier};
-use serde_json::json;
+use refmodel::hash::{crc32, principal_parse, principal_text};
+use serde::{Deserialize, Serialize};
+use serde_json::{json, Value};
+use std::collections::HashSet;
+use std::convert::TryFrom;
+use std::str::FromStr;
+
+// ---------------------------------------------------------------------------------------
+// A minimal non-human-readable serde format ("binary form"): a value is one byte string.
+// ---------------------------------------------------------------------------------------
+mod bin {
+    use serde::{de, ser};
+    use std::fmt::Display;
+
+    #[derive(Debug)]
+    pub struct E(pub String);
+    impl Display for E {
+        fn fmt(&self, f: &mut std::fmt::Formatter<'_>) -> std::fmt::Result {
+            f.write_str(&self.0)
+        }
+    }
+    impl std::error::Error for E {}
+    impl ser::Error for E {
+        fn custom<T: Display>(m: T) -> Self {
+            E(m.to_string())
+        }
+    }
+    impl de::Error for E {
+        fn custom<T: Display>(m: T) -> Self {
+            E(m.to_string())
+        }
+    }
+
+    pub struct BinSer;
+    type Imp = ser::Impossible<Vec<u8>, E>;
+    macro_rules! no {
+        ($($f:ident($($t:ty),*);)*) => {
+            $(fn $f(self, $(_: $t),*) -> Result<Vec<u8>, E> {
+                Err(E(concat!("binary serializer: unexpected ", stringify!($f)).into()))
+            })*
+        };
+    }
+    macro_rules! no_compound {
+        ($($f:ident($($t:ty),*) -> $r:ident;)*) => {
+            $(fn $f(self, $(_: $t),*) -> Result<Self::$r, E> {
+                Err(E(concat!("binary serializer: unexpected ", stringify!($f)).into()))
+            })*
+        };
+    }
+    impl ser::Serializer for BinSer {
+        type Ok = Vec<u8>;
+        type Error = E;
+        type SerializeSeq = Imp;
+        type SerializeTuple = Imp;
+        type SerializeTupleStruct = Imp;
+        type SerializeTupleVariant = Imp;
+        type SerializeMap = Imp;
+        type SerializeStruct = Imp;
+        type SerializeStructVariant = Imp;
+        fn is_human_readable(&self) -> bool {
+            false
+        }
+        fn serialize_bytes(self, v: &[u8]) -> Result<Vec<u8>, E> {
+            Ok(v.to_vec())
+        }
+        no! {
+            serialize_bool(bool); serialize_i8(i8); serialize_i16(i16); serialize_i32(i32); serialize_i64(i64);
+            serialize_u8(u8); serialize_u16(u16); serialize_u32(u32); serialize_u64(u64);
+            serialize_f32(f32); serialize_f64(f64); serialize_char(char); serialize_str(&str);
+            serialize_none(); serialize_unit(); serialize_unit_struct(&'static str);
+            serialize_unit_variant(&'static str, u32, &'static str);
+        }
+        fn serialize_some<T: ?Sized + ser::Serialize>(self, _: &T) -> Result<Vec<u8>, E> {
+            Err(E("binary serializer: unexpected serialize_some".into()))
+        }
+        fn serialize_newtype_struct<T: ?Sized + ser::Serialize>(self, _: &'static str, _: &T) -> Result<Vec<u8>, E> {
+            Err(E("binary serializer: unexpected serialize_newtype_struct".into()))
+        }
+        fn serialize_newtype_variant<T: ?Sized + ser::Serialize>(
+            self,
+            _: &'static str,
+            _: u32,
+            _: &'static str,
+            _: &T,
+        ) -> Result<Vec<u8>, E> {
+            Err(E("binary serializer: unexpected serialize_newtype_variant".into()))
+        }
+        no_compound! {
+            serialize_seq(Option<usize>) -> SerializeSeq;
+            serialize_tuple(usize) -> SerializeTuple;
+            serialize_tuple_struct(&'static str, usize) -> SerializeTupleStruct;
+            serialize_tuple_variant(&'static str, u32, &'static str, usize) -> SerializeTupleVariant;
+            serialize_map(Option<usize>) -> SerializeMap;
+            serialize_struct(&'static str, usize) -> SerializeStruct;
+            serialize_struct_variant(&'static str, u32, &'static str, usize) -> SerializeStructVariant;
+        }
+    }
+
+    /// How the byte string is handed to the visitor. All three are allowed by serde's
+    /// contract for `deserialize_bytes`.
+    #[derive(Clone, Copy, Debug, PartialEq, Eq)]
+    pub enum Hand {
+        Borrowed,
+        Transient,
+        Owned,
+    }
+    pub struct BinDe<'a> {
+        pub data: &'a [u8],
+        pub hand: Hand,
+    }
+    impl<'de> de::Deserializer<'de> for BinDe<'de> {
+        type Error = E;
+        fn is_human_readable(&self) -> bool {
+            false
+        }
+        fn deserialize_any<V: de::Visitor<'de>>(self, v: V) -> Result<V::Value, E> {
+            match self.hand {
+                Hand::Borrowed => v.visit_borrowed_bytes(self.data),
+                Hand::Transient => v.visit_bytes(self.data),
+                Hand::Owned => v.visit_byte_buf(self.data.to_vec()),
+            }
+        }
+        serde::forward_to_deserialize_any! {
+            bool i8 i16 i32 i64 i128 u8 u16 u32 u64 u128 f32 f64 char str string bytes byte_buf
+            option unit unit_struct newtype_struct seq tuple tuple_struct map struct enum
+            identifier ignored_any
+        }
+    }
+}
+use bin::{BinDe, BinSer, Hand};
+
+// ---------------------------------------------------------------------------------------
+// helpers
+// ---------------------------------------------------------------------------------------
+fn hx(b: &[u8]) -> String {
+    hex::encode(b)
+}
+
+/// printable, whitespace-free, injective rendering of a text for violation keys
+fn esc(t: &str) -> String {
+    let mut o = String::new();
+    for c in t.chars() {
+        if c.is_ascii_graphic() && c != '\\' {
+            o.push(c);
+        } else {
+            o.push_str(&format!("\\u{{{:x}}}", c as u32));
+        }
+    }
+    o
+}
+
+fn variant(e: &PrincipalError) -> &'static str {
+    match e {
+        PrincipalError::BytesTooLong() => "BytesTooLong",
+        PrincipalError::InvalidBase32() => "InvalidBase32",
+        PrincipalError::TextTooShort() => "TextTooShort",
+        PrincipalError::TextTooLong() => "TextTooLong",
+        PrincipalError::CheckSequenceNotMatch() => "CheckSequenceNotMatch",
+        PrincipalError::AbnormalGrouped(_) => "AbnormalGrouped",
+    }
+}
+
+/// Observed outcome of one subject call that yields a principal.
+#[derive(Clone, Debug, PartialEq, Eq)]
+enum Out {
+    Ok(Vec<u8>),
+    /// rejected with this class (PrincipalError variant name, or "error" for foreign error types)
+    Err(String),
+    Panic(String),
+}
+impl Out {
+    fn class(&self) -> String {
+        match self {
+            Out::Ok(_) => "accepted".into(),
+            Out::Err(v) => v.clone(),
+            Out::Panic(_) => "panic".into(),
+        }
+    }
+    fn show(&self) -> String {
+        match self {
+            Out::Ok(b) => format!("Ok(principal 0x{})", hx(b)),
+            Out::Err(v) => format!("Err({v})"),
+            Out::Panic(m) => format!("PANIC({m})"),
+        }
+    }
+}
+
+fn lift(r: Result<Result<Principal, PrincipalError>, String>) -> Out {
+    match r {
+        Ok(Ok(p)) => Out::Ok(p.as_slice().to_vec()),
+        Ok(Err(e)) => Out::Err(variant(&e).to_string()),
+        Err(m) => Out::Panic(m),
+    }
+}
+fn lift_any<E: std::fmt::Display>(r: Result<Result<Principal, E>, String>) -> Out {
+    match r {
+        Ok(Ok(p)) => Out::Ok(p.as_slice().to_vec()),
+        Ok(Err(_)) => Out::Err("error".to_string()),
+        Err(m) => Out::Panic(m),
+    }
+}
+fn lift_any_msg<E: std::fmt::Display>(r: Result<Result<Principal, E>, String>) -> (Out, String) {
+    match r {
+        Ok(Ok(p)) => (Out::Ok(p.as_slice().to_vec()), String::new()),
+        Ok(Err(e)) => (Out::Err("error".to_string()), e.to_string()),
+        Err(m) => (Out::Panic(m.clone()), m),
+    }
+}
+
+fn s_from_text(t: &str) -> Out {
+    lift(catch(|| Principal::from_text(t)))
+}
+fn s_from_str(t: &str) -> Out {
+    lift(catch(|| Principal::from_str(t)))
+}
+fn s_try_from_str(t: &str) -> Out {
+    lift(catch(|| Principal::try_from(t)))
+}
+
+/// hand-built candid message: DIDL, empty type table, one argument of type principal,
+/// value = 01 <leb len> <bytes>
+fn wire(b: &[u8]) -> Vec<u8> {
+    assert!(b.len() < 128);
+    let mut m = b"DIDL\x00\x01\x68\x01".to_vec();
+    m.push(b.len() as u8);
+    m.extend_from_slice(b);
+    m
+}
+
+// ---------------------------------------------------------------------------------------
+// second oracle: classifier written from the IC interface spec's textual-representation
+// paragraph, structured differently from R7 (classifies instead of re-printing)
+// ---------------------------------------------------------------------------------------
+const LOWER: &str = "abcdefghijklmnopqrstuvwxyz234567";
+
+#[derive(Clone, Copy, Debug, PartialEq, Eq)]
+enum Class {
+    Accepted,
+    InvalidChar,
+    BadBase32Length,
+    NonCanonicalBits,
+    TooShort,
+    TooLong,
+    BadChecksum,
+    BadGrouping,
+}
+impl Class {
+    fn name(self) -> &'static str {
+        match self {
+            Class::Accepted => "accepted",
+            Class::InvalidChar => "invalid-char",
+            Class::BadBase32Length => "bad-base32-length",
+            Class::NonCanonicalBits => "noncanonical-trailing-bits",
+            Class::TooShort => "too-short",
+            Class::TooLong => "too-long",
+            Class::BadChecksum => "bad-checksum",
+            Class::BadGrouping => "bad-grouping",
+        }
+    }
+}
+
+fn classify(t: &str) -> (Class, Option<Vec<u8>>) {
+    // symbols
+    let mut vals: Vec<u8> = vec![];
+    // group lengths as written
+    let mut groups: Vec<usize> = vec![0];
+    for c in t.chars() {
+        if c == '-' {
+            groups.push(0);
+            continue;
+        }
+        if !c.is_ascii() {
+            return (Class::InvalidChar, None);
+        }
+        let lc = c.to_ascii_lowercase();
+        match LOWER.find(lc) {
+            Some(i) => vals.push(i as u8),
+            None => return (Class::InvalidChar, None),
+        }
+        *groups.last_mut().unwrap() += 1;
+    }
+    let nbits = vals.len() * 5;
+    let nbytes = nbits / 8;
+    let spare = nbits % 8;
+    if spare >= 5 {
+        return (Class::BadBase32Length, None);
+    }
+    // bit string
+    let mut bits: Vec<bool> = Vec::with_capacity(nbits);
+    for v in &vals {
+        for k in (0..5).rev() {
+            bits.push((v >> k) & 1 == 1);
+        }
+    }
+    if bits[nbytes * 8..].iter().any(|b| *b) {
+        return (Class::NonCanonicalBits, None);
+    }
+    let data: Vec<u8> = (0..nbytes).map(|i| (0..8).fold(0u8, |a, k| (a << 1) | bits[i * 8 + k] as u8)).collect();
+    if data.len() < 4 {
+        return (Class::TooShort, None);
+    }
+    let payload = data[4..].to_vec();
+    if payload.len() > 29 {
+        return (Class::TooLong, None);
+    }
+    if crc32(&payload).to_be_bytes() != data[..4] {
+        return (Class::BadChecksum, None);
+    }
+    // grouping: every group but the last has exactly 5 symbols, the last 1..=5
+    let n = groups.len();
+    for (i, g) in groups.iter().enumerate() {
+        let ok = if i + 1 < n { *g == 5 } else { (1..=5).contains(g) };
+        if !ok {
+            return (Class::BadGrouping, None);
+        }
+    }
+    (Class::Accepted, Some(payload))
+}
+
+/// The oracle used for verdicts: R7's parser; the local classifier must agree on acceptance
+/// and on the principal (otherwise the machinery is broken, not the subject).
+fn oracle(t: &str) -> (Option<Vec<u8>>, Class) {
+    let m = principal_parse(t);
+    let (c, p) = classify(t);
+    if m != p {
+        eprintln!("ORACLE-DISAGREEMENT text={:?} R7={:?} local={:?}/{:?}", t, m, c, p);
+        std::process::exit(2);
+    }
+    (m, c)
+}
+
+// ---------------------------------------------------------------------------------------
+// E1: one principal of length <= 29 through every constructor / printer / serde form
+// ---------------------------------------------------------------------------------------
+struct Cmp<'a> {
+    rep: &'a mut Report,
+    id: String,
+    case: Value,
+}
+impl Cmp<'_> {
+    /// one subject call whose result must equal `want`
+    fn eq<T: PartialEq + std::fmt::Debug>(&mut self, op: &str, got: Result<T, String>, want: &T) {
+        self.rep.transitions += 1;
+        self.rep.traces_validated += 1;
+        match got {
+            Ok(g) if &g == want => {}
+            Ok(g) => {
+                let key = format!("{}|{op}|mismatch", self.id);
+                self.rep.violation(&key, format!("{op}: observed {g:?}, expected {want:?}"), self.case.clone());
+            }
+            Err(p) => {
+                let key = format!("{}|{op}|panic", self.id);
+                self.rep.violation(&key, format!("{op}: panicked: {p}; expected {want:?}"), self.case.clone());
+            }
+        }
+    }
+    /// one subject call that must yield exactly the principal `want` (or, if None, any rejection)
+    fn out(&mut self, op: &str, got: Out, want: Option<&[u8]>, panic_is_rejection: bool) {
+        self.rep.transitions += 1;
+        self.rep.traces_validated += 1;
+        let ok = match (&got, want) {
+            (Out::Ok(b), Some(w)) => b.as_slice() == w,
+            (Out::Err(_), None) => true,
+            (Out::Panic(_), None) => panic_is_rejection,
+            _ => false,
+        };
+        if !ok {
+            let exp = match want {
+                Some(w) => format!("Ok(principal 0x{})", hx(w)),
+                None => "rejection".to_string(),
+            };
+            let key = format!("{}|{op}|{}", self.id, got.class());
+            self.rep.violation(&key, format!("{op}: observed {}, expected {exp}", got.show()), self.case.clone());
+        }
+    }
+}
+
+fn check_bytes(b: &[u8], fam: &str, rep: &mut Report) {
+    assert!(b.len() <= 29);
+    rep.evaluations += 1;
+    rep.states += 1;
+    rep.nontrivial += 1;
+    let text = principal_text(b);
+    // oracle self-consistency (both oracles accept the canonical text as b)
+    let (m, _) = oracle(&text);
+    assert_eq!(m.as_deref(), Some(b), "R7 parser does not invert R7 printer on {}", hx(b));
+    let upper = text.to_ascii_uppercase();
+    let case = json!({"kind": "bytes", "hex": hx(b), "canonical_text": text});
+    let mut padded = [0u8; 29];
+    padded[..b.len()].copy_from_slice(b);
+
+    // the principal all later calls use; if this fails nothing else can run
+    let p = match catch(|| Principal::try_from_slice(b)) {
+        Ok(Ok(p)) => p,
+        other => {
+            rep.transitions += 1;
+            rep.traces_validated += 1;
+            rep.violation(
+                &format!("bytes={}|try_from_slice|rejected", hx(b)),
+                format!("try_from_slice rejected a {}-byte string: {:?}", b.len(), other.map(|r| r.map(|_| ()).map_err(|e| variant(&e)))),
+                case,
+            );
+            return;
+        }
+    };
+    let mut c = Cmp { rep, id: format!("bytes={}", hx(b)), case };
+    // --- constructors
+    c.out("try_from_slice", Out::Ok(p.as_slice().to_vec()), Some(b), false);
+    c.eq("len", catch(|| p.len() as usize), &b.len());
+    c.eq("as_fixed_bytes", catch(|| *p.as_fixed_bytes()), &padded);
+    c.eq("as_ref", catch(|| AsRef::<[u8]>::as_ref(&p).to_vec()), &b.to_vec());
+    c.eq("from_slice", catch(|| Principal::from_slice(b)), &p);
+    c.eq("TryFrom<&[u8]>", catch(|| Principal::try_from(b)), &Ok(p));
+    c.eq("TryFrom<Vec<u8>>", catch(|| Principal::try_from(b.to_vec())), &Ok(p));
+    c.eq("TryFrom<&Vec<u8>>", catch(|| Principal::try_from(&b.to_vec())), &Ok(p));
+    // --- printers
+    c.eq("to_text", catch(|| p.to_text()), &text);
+    c.eq("Display", catch(|| format!("{p}")), &text);
+    c.eq("ToString", catch(|| p.to_string()), &text);
+    // --- parsers on the canonical text and on its upper-case form
+    c.out("from_text", s_from_text(&text), Some(b), false);
+    c.out("from_text(String)", lift(catch(|| Principal::from_text(text.clone()))), Some(b), false);
+    c.out("FromStr", s_from_str(&text), Some(b), false);
+    c.out("TryFrom<&str>", s_try_from_str(&text), Some(b), false);
+    c.out("from_text(upper)", s_from_text(&upper), Some(b), false);
+    c.out("FromStr(upper)", s_from_str(&upper), Some(b), false);
+    c.out("TryFrom<&str>(upper)", s_try_from_str(&upper), Some(b), false);
+    // --- serde, human-readable (JSON text and JSON value tree)
+    let js = format!("\"{text}\"");
+    c.eq("serde_json::to_string", catch(|| serde_json::to_string(&p).map_err(|e| e.to_string())), &Ok(js.clone()));
+    c.out("serde_json::from_str", lift_any(catch(|| serde_json::from_str::<Principal>(&js))), Some(b), false);
+    c.eq("serde_json::to_value", catch(|| serde_json::to_value(p).map_err(|e| e.to_string())), &Ok(Value::String(text.clone())));
+    c.out("serde_json::from_value", lift_any(catch(|| serde_json::from_value::<Principal>(Value::String(text.clone())))), Some(b), false);
+    c.out("serde_json::from_str(upper)", lift_any(catch(|| serde_json::from_str::<Principal>(&format!("\"{upper}\"")))), Some(b), false);
+    // --- serde, binary (non-human-readable): a byte string, handed over borrowed or transient
+    c.eq("serde-binary serialize", catch(|| p.serialize(BinSer).map_err(|e| e.0)), &Ok(b.to_vec()));
+    c.out("serde-binary deserialize(visit_borrowed_bytes)", lift_any(catch(|| Principal::deserialize(BinDe { data: b, hand: Hand::Borrowed }))), Some(b), false);
+    c.out("serde-binary deserialize(visit_bytes)", lift_any(catch(|| Principal::deserialize(BinDe { data: b, hand: Hand::Transient }))), Some(b), false);
+    // --- candid binary form
+    let w = wire(b);
+    c.eq("Encode!", catch(|| Encode!(&p).map_err(|e| e.to_string())), &Ok(w.clone()));
+    c.out("Decode!", lift_any(catch(|| Decode!(&w, Principal))), Some(b), false);
+    c.eq(
+        "IDLArgs::from_bytes",
+        catch(|| IDLArgs::from_bytes(&w).map(|a| a.args).map_err(|e| e.to_string())),
+        &Ok(vec![IDLValue::Principal(p)]),
+    );
+    c.eq(
+        "IDLArgs::to_bytes",
+        catch(|| IDLArgs::new(&[IDLValue::Principal(p)]).to_bytes().map_err(|e| e.to_string())),
+        &Ok(w.clone()),
+    );
+    c.rep.outcome(&format!("{fam}:len{}:accepted", if b.len() <= 2 { b.len().to_string() } else { "3..29".into() }));
+    if b.len() == 29 {
+        c.rep.outcome("wire:len29:accepted");
+    }
+    if c.rep.samples.len() < 2 {
+        let s = json!({"family": fam, "bytes": hx(b), "text": text});
+        c.rep.sample(s);
+    }
+}
+
+// ---------------------------------------------------------------------------------------
+// byte strings of length 30..=40: every constructor rejects
+// ---------------------------------------------------------------------------------------
+fn check_long(b: &[u8], rep: &mut Report) {
+    assert!(b.len() > 29 && b.len() < 128);
+    rep.evaluations += 1;
+    rep.states += 1;
+    let text = principal_text(b); // R7 printer has no length limit: correct CRC, correct grouping
+    let (m, cl) = oracle(&text);
+    assert!(m.is_none() && cl == Class::TooLong);
+    let upper = text.to_ascii_uppercase();
+    let case = json!({"kind": "long", "hex": hx(b), "text_with_correct_crc": text});
+    let mut c = Cmp { rep, id: format!("long={}", hx(b)), case };
+    let mut classes: Vec<(String, String)> = vec![];
+    let mut go = |c: &mut Cmp, op: &str, o: Out, panic_ok: bool| {
+        classes.push((op.to_string(), o.class()));
+        c.out(op, o, None, panic_ok);
+    };
+    go(&mut c, "try_from_slice", lift(catch(|| Principal::try_from_slice(b))), false);
+    // contract: "Panics if the slice is longer than 29 bytes" — a panic is the documented rejection
+    go(&mut c, "from_slice", lift(catch(|| Ok(Principal::from_slice(b)))), true);
+    go(&mut c, "TryFrom<&[u8]>", lift(catch(|| Principal::try_from(b))), false);
+    go(&mut c, "TryFrom<Vec<u8>>", lift(catch(|| Principal::try_from(b.to_vec()))), false);
+    go(&mut c, "TryFrom<&Vec<u8>>", lift(catch(|| Principal::try_from(&b.to_vec()))), false);
+    for (n, t) in [("", &text), ("(upper)", &upper)] {
+        go(&mut c, &format!("from_text{n}"), s_from_text(t), false);
+        go(&mut c, &format!("FromStr{n}"), s_from_str(t), false);
+        go(&mut c, &format!("TryFrom<&str>{n}"), s_try_from_str(t), false);
+        go(&mut c, &format!("serde_json::from_str{n}"), lift_any(catch(|| serde_json::from_str::<Principal>(&format!("\"{t}\"")))), false);
+    }
+    go(&mut c, "serde-binary deserialize(visit_borrowed_bytes)", lift_any(catch(|| Principal::deserialize(BinDe { data: b, hand: Hand::Borrowed }))), false);
+    go(&mut c, "serde-binary deserialize(visit_bytes)", lift_any(catch(|| Principal::deserialize(BinDe { data: b, hand: Hand::Transient }))), false);
+    let w = wire(b);
+    go(&mut c, "Decode!", lift_any(catch(|| Decode!(&w, Principal))), false);
+    let fb = match catch(|| IDLArgs::from_bytes(&w)) {
+        Ok(Ok(a)) => match a.args.first() {
+            Some(IDLValue::Principal(p)) => Out::Ok(p.as_slice().to_vec()),
+            _ => Out::Ok(vec![]),
+        },
+        Ok(Err(_)) => Out::Err("error".into()),
+        Err(m) => Out::Panic(m),
+    };
+    go(&mut c, "IDLArgs::from_bytes", fb, false);
+    for (op, cl) in classes {
+        let short = op.split('(').next().unwrap().to_string();
+        c.rep.outcome(&format!("long:{short}:{cl}"));
+    }
+    if b.len() == 30 {
+        c.rep.outcome("wire:len30:rejected");
+    }
+}
+
+// ---------------------------------------------------------------------------------------
+// E3: one text against the oracle
+// ---------------------------------------------------------------------------------------
+/// `all_parsers`: also run FromStr / TryFrom<&str> (pure delegations) on this text
+fn check_text(t: &str, origin: &[u8], fam: &str, all_parsers: bool, rep: &mut Report) {
+    rep.evaluations += 1;
+    let (m, cl) = oracle(t);
+    let mut ops: Vec<(&str, Out)> = vec![("from_text", s_from_text(t))];
+    if all_parsers {
+        ops.push(("FromStr", s_from_str(t)));
+        ops.push(("TryFrom<&str>", s_try_from_str(t)));
+    }
+    if m.is_some() {
+        rep.nontrivial += 1;
+    }
+    for (op, got) in ops {
+        rep.transitions += 1;
+        rep.traces_validated += 1;
+        if op == "from_text" {
+            rep.outcome(&format!("{fam}:{}", got.class()));
+            rep.count(&format!("spec={} / subject={}", cl.name(), got.class()), 1);
+        }
+        let ok = match (&got, &m) {
+            (Out::Ok(b), Some(w)) => b == w,
+            (Out::Err(_), None) => true,
+            _ => false,
+        };
+        if !ok {
+            // re-check once: same input, same observation?
+            let again = match op {
+                "from_text" => s_from_text(t),
+                "FromStr" => s_from_str(t),
+                _ => s_try_from_str(t),
+            };
+            let stable = if again == got { "stable on re-run" } else { "NOT stable on re-run" };
+            let exp = match &m {
+                Some(w) => format!("Ok(principal 0x{})", hx(w)),
+                None => format!("rejection ({})", cl.name()),
+            };
+            rep.violation(
+                &format!("text={}|{op}|{}", esc(t), got.class()),
+                format!("{op}({t:?}): observed {}, expected {exp}; {stable}", got.show()),
+                json!({"kind": "text", "text": t, "origin_hex": hx(origin), "origin_text": principal_text(origin), "family": fam}),
+            );
+        }
+    }
+}
+
+/// replacement / insertion alphabet: 32 base32 symbols, the 26 distinct upper-case forms,
+/// digits outside the alphabet, padding, space, dash and two non-ASCII characters ('é', and
+/// U+212A KELVIN SIGN whose Unicode lower-case is 'k' but which is not an ASCII letter)
+fn alphabet() -> Vec<char> {
+    let mut a: Vec<char> = LOWER.chars().collect();
+    a.extend('A'..='Z');
+    a.extend(['0', '1', '8', '9', '=', ' ', '-', 'é', '\u{212A}']);
+    a
+}
+
+/// All single deviations of a canonical text (deduplicated, canonical text itself excluded
+/// unless a deviation reproduces it — that happens for "move the dash back where it was",
+/// which is dropped, too).
+fn deviations(canon: &str, alpha: &[char]) -> Vec<String> {
+    let cs: Vec<char> = canon.chars().collect();
+    let n = cs.len();
+    let mut set: HashSet<String> = HashSet::new();
+    let mut out: Vec<String> = vec![];
+    let mut add = |s: String, out: &mut Vec<String>| {
+        if s != canon && set.insert(s.clone()) {
+            out.push(s);
+        }
+    };
+    // replacements
+    for i in 0..n {
+        for a in alpha {
+            if *a != cs[i] {
+                let mut v = cs.clone();
+                v[i] = *a;
+                add(v.into_iter().collect(), &mut out);
+            }
+        }
+    }
+    // insertions
+    for i in 0..=n {
+        for a in alpha {
+            let mut v = cs.clone();
+            v.insert(i, *a);
+            add(v.into_iter().collect(), &mut out);
+        }
+    }
+    // deletions
+    for i in 0..n {
+        let mut v = cs.clone();
+        v.remove(i);
+        add(v.into_iter().collect(), &mut out);
+    }
+    // dash moves (each dash to every other position), removals are deletions, duplications are
+    // insertions; plus: all dashes removed, regrouping by k = 1..=8 left-aligned, groups of 5
+    // right-aligned
+    for d in 0..n {
+        if cs[d] != '-' {
+            continue;
+        }
+        let mut without = cs.clone();
+        without.remove(d);
+        for j in 0..=without.len() {
+            let mut v = without.clone();
+            v.insert(j, '-');
+            add(v.into_iter().collect(), &mut out);
+        }
+    }
+    let syms: Vec<char> = cs.iter().copied().filter(|c| *c != '-').collect();
+    add(syms.iter().collect(), &mut out);
+    for k in 1..=8usize {
+        let mut s = String::new();
+        for (i, c) in syms.iter().enumerate() {
+            if i > 0 && i % k == 0 {
+                s.push('-');
+            }
+            s.push(*c);
+        }
+        add(s, &mut out);
+    }
+    {
+        let mut s = String::new();
+        let r = syms.len() % 5;
+        for (i, c) in syms.iter().enumerate() {
+            if i > 0 && i % 5 == r {
+                s.push('-');
+            }
+            s.push(*c);
+        }
+        add(s, &mut out);
+    }
+    // truncations: every proper prefix (incl. the empty text) and every proper suffix
+    for i in 0..n {
+        add(cs[..i].iter().collect(), &mut out);
+        add(cs[i..].iter().collect(), &mut out);
+    }
+    // case masks of the first group, the all-upper-case form, upper-case with lower-case first char
+    let g = n.min(5);
+    for mask in 0u32..(1 << g) {
+        let mut v = cs.clone();
+        for (k, ch) in v.iter_mut().enumerate().take(g) {
+            if mask >> k & 1 == 1 {
+                *ch = ch.to_ascii_uppercase();
+            }
+        }
+        add(v.into_iter().collect(), &mut out);
+    }
+    add(canon.to_ascii_uppercase(), &mut out);
+    out
+}
+
+fn check_origin_single(b: &[u8], alpha: &[char], fam: &str, all_parsers: bool, rep: &mut Report) {
+    let canon = principal_text(b);
+    let devs = deviations(&canon, alpha);
+    rep.states += devs.len() as u64;
+    rep.count(&format!("{fam}: origins"), 1);
+    rep.count(&format!("{fam}: texts"), devs.len() as u64);
+    for t in &devs {
+        check_text(t, b, fam, all_parsers, rep);
+    }
+    if b.len() == 29 && rep.samples.len() < 4 {
+        rep.sample(json!({"family": fam, "origin": hx(b), "canonical": canon, "deviation": devs[devs.len() / 2]}));
+    }
+}
+
+/// all pairs of single-character replacements at two different positions among the first two
+/// groups (text positions 0..11, including the dash between them)
+fn check_origin_pairs(b: &[u8], alpha: &[char], rep: &mut Report) {
+    let canon = principal_text(b);
+    let cs: Vec<char> = canon.chars().collect();
+    let n = cs.len().min(11);
+    let fam = "E3-pair";
+    rep.count("E3-pair: origins", 1);
+    for i in 0..n {
+        for j in (i + 1)..n {
+            for a in alpha {
+                if *a == cs[i] {
+                    continue;
+                }
+                for a2 in alpha {
+                    if *a2 == cs[j] {
+                        continue;
+                    }
+                    let mut v = cs.clone();
+                    v[i] = *a;
+                    v[j] = *a2;
+                    let t: String = v.into_iter().collect();
+                    rep.states += 1;
+                    check_text(&t, b, fam, false, rep);
+                }
+            }
+        }
+    }
+}
+
+// ---------------------------------------------------------------------------------------
+// serde binary form when the format hands over an owned buffer (`visit_byte_buf`)
+// ---------------------------------------------------------------------------------------
+fn check_owned(b: &[u8], rep: &mut Report) {
+    rep.evaluations += 1;
+    rep.transitions += 1;
+    rep.traces_validated += 1;
+    let (got, msg) = lift_any_msg(catch(|| Principal::deserialize(BinDe { data: b, hand: Hand::Owned })));
+    rep.outcome(&format!("serde-owned:{}", got.class()));
+    let want: Option<&[u8]> = if b.len() <= 29 { Some(b) } else { None };
+    let ok = match (&got, want) {
+        (Out::Ok(g), Some(w)) => g.as_slice() == w,
+        (Out::Err(_), None) => true,
+        _ => false,
+    };
+    if !ok {
+        // failure class is the key: the input is any byte string (first byte 02 or not)
+        let class = match &got {
+            Out::Ok(_) => "returns-a-different-principal",
+            Out::Err(_) if want.is_some() => "rejects-valid-bytes",
+            Out::Err(_) => unreachable!(),
+            Out::Panic(_) => "panic",
+        };
+        rep.violation(
+            &format!("Principal|serde-binary-deserialize(visit_byte_buf)|{class}"),
+            format!(
+                "Principal::deserialize on a non-human-readable format that hands the {}-byte string 0x{} over as an owned buffer (visit_byte_buf): observed {} {}; expected {}",
+                b.len(),
+                hx(b),
+                got.show(),
+                if msg.is_empty() { String::new() } else { format!("[{msg}]") },
+                match want {
+                    Some(w) => format!("Ok(principal 0x{})", hx(w)),
+                    None => "rejection".into(),
+                }
+            ),
+            json!({"kind": "owned", "hex": hx(b)}),
+        );
+    }
+}
+
+// ---------------------------------------------------------------------------------------
+// scopes
+// ---------------------------------------------------------------------------------------
+fn short_bytes(i: u64) -> Vec<u8> {
+    match i {
+        0 => vec![],
+        1..=256 => vec![(i - 1) as u8],
+        _ => {
+            let k = i - 257;
+            vec![(k >> 8) as u8, (k & 0xff) as u8]
+        }
+    }
+}
+const N_SHORT: u64 = 1 + 256 + 65536;
+
+fn structured(len: usize) -> Vec<Vec<u8>> {
+    let mut v: Vec<Vec<u8>> = vec![vec![0; len], vec![0xff; len], (1..=len).map(|x| x as u8).collect()];
+    for bg in [0u8, 0x55] {
+        for pos in 0..len {
+            for val in [0x00u8, 0x01, 0x7f, 0x80, 0xfe, 0xff] {
+                let mut b = vec![bg; len];
+                b[pos] = val;
+                v.push(b);
+            }
+        }
+    }
+    let mut seen = HashSet::new();
+    v.retain(|b| seen.insert(b.clone()));
+    v
+}
 
 fn parse_args() -> (Tier, Option<String>, Vec<String>) {
     let args: Vec<String> = std::env::args().collect();
@@ -28,18 +819,146 @@ fn parse_args() -> (Tier, Option<String>, Vec<String>) {
     (tier, replay, rest)
 }
 
+fn replay(path: &str) -> i32 {
+    let s = match std::fs::read_to_string(path) {
+        Ok(s) => s,
+        Err(e) => {
+            eprintln!("cannot read {path}: {e}");
+            return 2;
+        }
+    };
+    let v: Value = match serde_json::from_str(&s) {
+        Ok(v) => v,
+        Err(e) => {
+            eprintln!("bad json in {path}: {e}");
+            return 2;
+        }
+    };
+    let case = if v.get("case").is_some() { &v["case"] } else { &v };
+    let unhex = |k: &str| hex::decode(case[k].as_str().unwrap_or("")).unwrap_or_default();
+    let mut rep = Report::new();
+    let alpha = alphabet();
+    let _ = &alpha;
+    match case["kind"].as_str() {
+        Some("bytes") => check_bytes(&unhex("hex"), "replay", &mut rep),
+        Some("long") => check_long(&unhex("hex"), &mut rep),
+        Some("owned") => check_owned(&unhex("hex"), &mut rep),
+        Some("text") => {
+            let t = case["text"].as_str().unwrap_or("");
+            check_text(t, &unhex("origin_hex"), "replay", true, &mut rep);
+        }
+        k => {
+            eprintln!("unknown case kind {k:?}");
+            return 2;
+        }
+    }
+    for v in &rep.violations {
+        println!("REPRODUCED {} :: {}", v.key, v.msg);
+    }
+    if rep.violations.is_empty() {
+        println!("not reproduced: implementation and oracle agree on this case");
+        0
+    } else {
+        1
+    }
+}
+
 fn main() {
     install_quiet_panic_hook();
-    let (tier, replay, _rest) = parse_args();
-    if let Some(path) = replay {
-        let _ = path;
-        eprintln!("replay not implemented yet");
-        std::process::exit(2);
+    let (tier, replay_path, _rest) = parse_args();
+    if let Some(path) = replay_path {
+        std::process::exit(replay(&path));
     }
     let ctx = Ctx::new("C16", tier, tier.pick(120, 1200));
-    let mut rep = Report::new();
-    let _ = catch(|| ());
-    rep.sample(json!("skeleton"));
-    let code = finish(&ctx, rep, "skeleton", &[], json!({}));
+    let alpha = alphabet();
+    let mut notes: Vec<String> = vec![];
+
+    // ---- E1a: all byte strings of length <= 2
+    let mut rep = ctx.par_range("E1a: all byte strings of length <= 2", N_SHORT, 512, || (), |_, i, rep| {
+        check_bytes(&short_bytes(i), "E1-short", rep);
+    });
+
+    // ---- E1b: structured family for every length 0..=29
+    let mut fam: Vec<Vec<u8>> = vec![];
+    let mut per_len = vec![];
+    for len in 0..=29 {
+        let f = structured(len);
+        per_len.push(f.len());
+        fam.extend(f);
+    }
+    notes.push(format!("structured family: {} principals over lengths 0..=29 (per length: {:?})", fam.len(), per_len));
+    let r = ctx.par_range("E1b: structured family, lengths 0..=29", fam.len() as u64, 64, || (), |_, i, rep| {
+        check_bytes(&fam[i as usize], "E1-structured", rep);
+    });
+    rep.merge(r);
+
+    // ---- E1c: lengths 30..=40 through every constructor (same structured family per length)
+    let mut long: Vec<Vec<u8>> = vec![];
+    for len in 30..=40 {
+        long.extend(structured(len));
+    }
+    notes.push(format!("over-long family: {} byte strings over lengths 30..=40, each also as a correctly checksummed and grouped text", long.len()));
+    let r = ctx.par_range("E1c: lengths 30..=40, every constructor", long.len() as u64, 64, || (), |_, i, rep| {
+        check_long(&long[i as usize], rep);
+    });
+    rep.merge(r);
+
+    // ---- E1d: serde binary form through an owned buffer (sequential, smallest inputs first,
+    //      so that the recorded case of each failure class is the minimal one)
+    {
+        let mut owned: Vec<Vec<u8>> = (0..257).map(short_bytes).collect();
+        owned.extend(fam.iter().filter(|b| b.len() >= 2).cloned());
+        owned.extend(structured(30));
+        let mut r = Report::new();
+        for b in &owned {
+            r.states += 1;
+            check_owned(b, &mut r);
+        }
+        r.level("E1d: serde binary form via visit_byte_buf", owned.len() as u64, true);
+        rep.merge(r);
+    }
+
+    // ---- E3a: all single deviations of every canonical text of the reduced set
+    let mut origins: Vec<Vec<u8>> = (0..257).map(short_bytes).collect();
+    {
+        let mut seen: HashSet<Vec<u8>> = origins.iter().cloned().collect();
+        for b in &fam {
+            if seen.insert(b.clone()) {
+                origins.push(b.clone());
+            }
+        }
+    }
+    notes.push(format!("E3 reduced set: {} origins (all principals of length <= 1 plus the structured family)", origins.len()));
+    let r = ctx.par_range("E3a: single deviations of the reduced set", origins.len() as u64, 4, || (), |_, i, rep| {
+        check_origin_single(&origins[i as usize], &alpha, "E3-single", true, rep);
+    });
+    rep.merge(r);
+
+    if tier == Tier::Thorough {
+        // ---- E3b: pairs of replacements in the first two groups, principals of length <= 1
+        let r = ctx.par_range("E3b: pairs of replacements, principals of length <= 1", 257, 1, || (), |_, i, rep| {
+            check_origin_pairs(&short_bytes(i), &alpha, rep);
+        });
+        rep.merge(r);
+        // ---- E3c: single deviations of every principal of length 2
+        let r = ctx.par_range("E3c: single deviations of all principals of length 2", 65536, 64, || (), |_, i, rep| {
+            check_origin_single(&short_bytes(257 + i), &alpha, "E3-single-len2", false, rep);
+        });
+        rep.merge(r);
+    }
+
+    rep.notes.extend(notes);
+    rep.notes.push("serde binary form: no non-human-readable serde format crate (serde_cbor, bincode, ciborium) is resolvable offline; the check uses its own minimal non-human-readable Serializer/Deserializer (value = one byte string; is_human_readable() = false) handing bytes over via visit_borrowed_bytes, visit_bytes and (level E1d) visit_byte_buf, plus candid's own Encode!/Decode!/IDLArgs round trip against a hand-built message".into());
+    rep.notes.push("counters 'spec=<class> / subject=<variant>' cross-tabulate the local classifier's rejection reason with the PrincipalError variant returned by from_text; only acceptance and the returned principal are compared for the verdict".into());
+    let code = finish(
+        &ctx,
+        rep,
+        "E1: every byte string of length <= 2 and a structured family (all-00, all-ff, 1,2,3.., one position in {00,01,7f,80,fe,ff} over all-00 / all-55) for each length 0..=29 through all constructors, printers, parsers, serde JSON, a minimal non-human-readable serde format, candid Encode!/Decode!/IDLArgs; the same family for lengths 30..=40 must be rejected by every constructor (from_slice: documented panic), by the wire parser and as correctly checksummed text. E3: for every canonical text of the reduced set all single replacements / insertions over 67 characters, deletions, dash moves, regroupings, truncations (prefixes and suffixes), first-group case masks, all-upper-case (thorough: pairs of replacements for length <= 1, single deviations for all length-2 principals): accepted iff the R7 parser accepts, with the same principal. states = distinct principals + distinct texts per origin; transitions = subject calls; non-trivial = cases the oracle accepts (principal or text).",
+        &[
+            "R7 (refmodel::hash: CRC32 IEEE, RFC 4648 base32 lower-case without padding, groups of five) is a correct reading of the IC interface specification's textual representation of principals; a second local classifier agrees with it on every text examined",
+            "'equal up to ASCII case' means: the text is ASCII and its ASCII-lower-case form is byte-identical to the canonical text",
+        ],
+        json!({}),
+    );
     std::process::exit(code);
 }
